@@ -161,10 +161,12 @@ class MAC(EVPN):
             and self.CODE == other.CODE
             and self.rd == other.rd
             and self.etag == other.etag
+            and self.maclen == other.maclen
             and self.mac == other.mac
             and self.ip == other.ip
         )
-        # esi and label must not be part of the comparaison
+        # esi and label must not be part of the comparaison; the MAC address length is part of the
+        # route key (RFC 7432 section 7.2) and of index()
 
     def __ne__(self, other: object) -> bool:
         return not self.__eq__(other)
@@ -183,7 +185,7 @@ class MAC(EVPN):
 
     def __hash__(self) -> int:
         # esi and label MUST *NOT* be part of the hash
-        return hash((self.rd, self.etag, self.mac, self.ip))
+        return hash((self.rd, self.etag, self.maclen, self.mac, self.ip))
 
     @classmethod
     def unpack_evpn(cls, packed: Buffer) -> EVPN:
